@@ -23,26 +23,40 @@ pub enum IG {
     Collection(Vec<IG>),
 }
 
-/// x = (ox + i) * 2^sh ; exact in f64 as long as |ox + i| < 2^53
+/// x = (ox + i) * 2^sh ; exact in f64 as long as |ox + i| < 2^53.
+/// `shear` = L > 0 (only from `Lat::random_sheared`, for properties that are invariant under linear bijections):
+/// the lattice point is first mapped by the unimodular map (i,j) -> ((L+1)i + Lj, Li + (L-1)j) (determinant -1,
+/// all edges become nearly parallel and ~L·g long); ox, oy, sh are 0 then and `inv` / `scale` must not be used.
 #[derive(Clone, Copy, Debug, PartialEq)]
 pub struct Lat {
     pub ox: i64,
     pub oy: i64,
     pub sh: i32,
+    pub shear: i64,
 }
 impl Lat {
-    pub const ID: Lat = Lat { ox: 0, oy: 0, sh: 0 };
+    pub const ID: Lat = Lat { ox: 0, oy: 0, sh: 0, shear: 0 };
+    pub fn random_sheared(r: &mut crate::rng::Rng) -> Lat {
+        Lat { ox: 0, oy: 0, sh: 0, shear: *r.pick(&[1i64 << 27, 100_000_000, 1 << 30, 3 << 28, (1 << 29) + 12345]) }
+    }
     #[inline]
     pub fn scale(&self) -> f64 {
         crate::q::pow2(self.sh)
     }
     #[inline]
     pub fn c(&self, p: IP) -> Coord<f64> {
+        if self.shear != 0 {
+            let l = self.shear;
+            return Coord { x: ((l + 1) * p.0 + l * p.1) as f64, y: (l * p.0 + (l - 1) * p.1) as f64 };
+        }
         let s = self.scale();
         Coord { x: (self.ox + p.0) as f64 * s, y: (self.oy + p.1) as f64 * s }
     }
     /// exact preimage of an f64 result coordinate (None if it does not fit Q comfortably)
     pub fn inv(&self, c: Coord<f64>) -> Option<P> {
+        if self.shear != 0 {
+            return None;
+        }
         let s = crate::q::pow2(-self.sh);
         // dividing by a power of two is exact unless it underflows/overflows; lattice values never do
         let (x, y) = (c.x * s, c.y * s);
@@ -58,13 +72,16 @@ impl Lat {
         let ox = *r.pick(&offs);
         let oy = *r.pick(&offs);
         let sh = if r.chance(1, 2) { 0 } else { r.range(-30, 30) as i32 };
-        Lat { ox, oy, sh }
+        Lat { ox, oy, sh, shear: 0 }
     }
     pub fn json(&self) -> Value {
+        if self.shear != 0 {
+            return json!({"ox": self.ox, "oy": self.oy, "sh": self.sh, "shear": self.shear});
+        }
         json!({"ox": self.ox, "oy": self.oy, "sh": self.sh})
     }
     pub fn from_json(v: &Value) -> Lat {
-        Lat { ox: v["ox"].as_i64().unwrap_or(0), oy: v["oy"].as_i64().unwrap_or(0), sh: v["sh"].as_i64().unwrap_or(0) as i32 }
+        Lat { ox: v["ox"].as_i64().unwrap_or(0), oy: v["oy"].as_i64().unwrap_or(0), sh: v["sh"].as_i64().unwrap_or(0) as i32, shear: v["shear"].as_i64().unwrap_or(0) }
     }
 }
 
@@ -102,6 +119,7 @@ impl IG {
             IG::MultiPoint(v) => Geometry::MultiPoint(MultiPoint::new(v.iter().map(|&p| Point(l.c(p))).collect())),
             IG::MultiLineString(v) => Geometry::MultiLineString(MultiLineString::new(v.iter().map(|x| ls(l, x)).collect())),
             IG::MultiPolygon(v) => Geometry::MultiPolygon(MultiPolygon::new(v.iter().map(|x| poly(l, x)).collect())),
+            IG::Rect(a, b) if l.shear != 0 => Geometry::Polygon(poly(l, &[IG::rect_ring(*a, *b)])),
             IG::Rect(a, b) => Geometry::Rect(Rect::new(l.c(*a), l.c(*b))),
             IG::Triangle(a, b, c) => Geometry::Triangle(Triangle::new(l.c(*a), l.c(*b), l.c(*c))),
             IG::Collection(v) => Geometry::GeometryCollection(GeometryCollection::new_from(v.iter().map(|g| g.to_geo(l)).collect())),
